@@ -37,6 +37,16 @@ def gen(rng, tier):
     if two:
         ops[1].append(1)
         ops.append(['create', rng.choice(['list', 'dict', 'Maker', 'Value']), 1])
+    if rng.random() < 0.2:
+        # "same server-side object handed out again": a Maker whose shared list is returned (managed) several times, to the same or to
+        # different parties, while earlier proxies of it are alive; the random tail then drops / sends / stores them in some order
+        ops[0] = ['create', 'Maker']
+        for _ in range(rng.choice([2, 2, 3])):
+            ops.append(['shared', rng.randrange(nag + 1), 0])
+            if rng.random() < 0.4:
+                ops.append([rng.choice(['drop', 'send', 'copy', 'thread_use']), rng.randrange(nag + 1), rng.randrange(8), rng.randrange(nag + 1)])
+                if ops[-1][0] != 'send':
+                    ops[-1].pop()
     for _ in range(rng.choice([2, 4, 6, 9, 12])):
         r = rng.random()
         p = rng.randrange(nag + 1)
